@@ -72,6 +72,11 @@ CHECKS.update({
          "Every state reached by histories up to the depth bound over a 20-entry menu (validators in all statuses incl. zero-power, pending/boarding voters, in-flight withdrawals, queues, parameter corners) is exported with ExportAppStateAndValidators, imported with InitChain on a fresh App and compared: validators, per-module re-export, full store dumps (boarding queue as multiset), invariants, and the imported chain must produce a block.",
          KA_NOTE, "DESIGN.md section 4 C18"),
 })
+CHECKS.update({
+ "C19": ("inputmc", "exhaustive single wire-level mutations of every message type, raw transaction and execution-block message, each correctly re-signed and delivered through CheckTx / ProcessProposal / FinalizeBlock of the real application in crash-contained worker processes; differential state check for failed transactions",
+         "For two reachable states every single-field wire mutation (two levels deep) of a well-formed instance of every relayer/bridge message, all vote-bitmap lengths 0..33, raw-transaction truncations and mutations, mutations of MsgNewEthBlock and an execution-layer request grammar are delivered to the real application; a dying worker process (= node crash, incl. panics in errgroup goroutines), an escaping panic or a FinalizeBlock error is a violation, and failed transactions must leave all module stores equal to the same block without them.",
+         KA_NOTE + " Proposals rejected by ProcessProposal are not forced into FinalizeBlock.", "DESIGN.md section 4 C19"),
+})
 PENDING = {}
 
 def main():
